@@ -470,12 +470,55 @@ def r20e(ctx):
                    f"a link, a line break or a long text the two outlines differ, although the property asks for the same outline from both")
 
 
+def r20f(ctx):
+    """The outline level that fill() filters by is the one that was requested.
+
+    fill() keeps the headings whose level does not exceed `self.outline_level`, which is read back from text:table-of-content-source.
+    "Exactly the headings whose level does not exceed the requested outline level" therefore needs the setter to store the request itself,
+    always: 0 is the library's "all levels" (the constructor writes it), so a clamp to 1..10 or an early return for a false value leaves
+    another level in force than the one asked for.  Rule: on every normal path of the setter the attribute is written, and what is written
+    is str() of the parameter, which is never re-bound.
+    """
+    from ..paths import cfg_of, node_of
+    repo = ctx.repo
+    ctx.rule("R20f", "TOC.outline_level setter stores the requested level, unchanged, on every path", floor=1)
+    f = repo.func("TOC.outline_level", "setter")
+    par = [a.arg for a in f.node.args.args if a.arg != "self"][0]
+    writes = [c for c in walk_no_nested(f.node) if isinstance(c, ast.Call) and call_name(c) == "set_attribute" and len(c.args) == 2
+              and repo.fold(c.args[0], f.module) == "text:outline-level"]
+    if not writes:
+        raise AnalysisError("R20f: the setter of TOC.outline_level no longer writes text:outline-level")
+    rebinds = [a for a in walk_no_nested(f.node) if isinstance(a, (ast.Assign, ast.AugAssign, ast.AnnAssign))
+               and any(isinstance(t, ast.Name) and t.id == par for t in (a.targets if isinstance(a, ast.Assign) else [a.target]))]
+    bad = []
+    for w in writes:
+        v = w.args[1]
+        core = v.args[0] if isinstance(v, ast.Call) and call_name(v) in ("str", "int") and len(v.args) == 1 else v
+        if isinstance(core, ast.Call) and call_name(core) in ("str", "int") and len(core.args) == 1:
+            core = core.args[0]
+        if not (isinstance(core, ast.Name) and core.id == par):
+            bad.append((w, f"writes `{norm(v, 40)}`, not the requested level"))
+    for a in rebinds:
+        bad.append((a, f"re-binds the requested level (`{norm(a, 50)}`)"))
+    cfg = cfg_of(f)
+    skip = cfg.path_avoiding(cfg.entry, cfg.exit, [node_of(cfg, w) for w in writes], follow_exc=False)
+    if skip is not None:
+        last = [x for x in skip if x.stmt is not None][-1].stmt
+        bad.append((last, f"can return without writing the attribute (`{norm(last, 40)}`)"))
+    ctx.instance("R20f", f"{f.file}:{f.ident}", "requested level written as given on every path", ok=not bad, nontrivial=True, line=f.node.lineno)
+    for n_, why in bad[:2]:
+        ctx.report("R20f", f, n_, f"TOC.outline_level setter {why.split(' (')[0]}",
+                   f"the setter of TOC.outline_level {why}: fill() filters by the value read back from the TOC source, so after `toc.outline_level = 0` (all levels) or any level "
+                   f"the change alters, the index lists the headings of another level than the one requested")
+
+
 def run(ctx):
     r20a(ctx)
     r20b(ctx)
     r20c(ctx)
     r20d(ctx)
     r20e(ctx)
+    r20f(ctx)
     # fill() filters by self.outline_level: that property must read this TOC's own source element, not the first one of the document (rule shared with C12)
     from ..registry import build_registry
     from .c12 import r12k
@@ -487,6 +530,10 @@ from ..selftest import Seed, unparse_seed  # noqa: E402
 _TOC = "src/odfdo/toc.py"
 _HS = "src/odfdo/scripts/headers.py"
 SEEDS = [
+    Seed("outline_level setter clamps the level to 1..10", "fault", _TOC, '        source.set_attribute("text:outline-level", str(level))', '        level = min(max(int(level), 1), 10)\n        source.set_attribute("text:outline-level", str(level))', "R20f"),
+    Seed("outline_level setter returns early for level 0", "fault", _TOC, "    def outline_level(self, level: int) -> None:\n        source = self.get_element(\"text:table-of-content-source\")\n        if source is None:\n            source = Element.from_tag",
+         "    def outline_level(self, level: int) -> None:\n        if not level:\n            return\n        source = self.get_element(\"text:table-of-content-source\")\n        if source is None:\n            source = Element.from_tag", "R20f"),
+    Seed("outline_level setter converts with int first", "neutral", _TOC, '        source.set_attribute("text:outline-level", str(level))', '        source.set_attribute("text:outline-level", str(int(level)))'),
     Seed("headers script prints the formatted text of the heading", "fault", "src/odfdo/scripts/headers.py", '        print(f"{number_str} {header}", end="")', '        print(f"{number_str} {header.get_formatted_text()}")', "R20e"),
     Seed("headers script prints text_recursive", "fault", "src/odfdo/scripts/headers.py", '        print(f"{number_str} {header}", end="")', '        print(f"{number_str} {header.text_recursive}")', "R20e"),
     Seed("headers script prints inner_text and its own line end", "neutral", "src/odfdo/scripts/headers.py", '        print(f"{number_str} {header}", end="")', '        print(f"{number_str} {header.inner_text}")'),
